@@ -1,7 +1,9 @@
 package vsched
 
 import (
+	"encoding/json"
 	"fmt"
+	"os"
 	"time"
 )
 
@@ -103,7 +105,20 @@ func diffPoints(a, b []PointRec, upto int) string {
 	return ""
 }
 
+// journal records the execution about to run, so that a crash of the whole
+// process (e.g. the Go runtime's unrecoverable "out of memory") can still be
+// attributed to a replayable execution by the runner.
+func journal(name string, prefix []int) {
+	p := os.Getenv("VSCHED_JOURNAL")
+	if p == "" {
+		return
+	}
+	b, _ := json.Marshal(map[string]any{"scenario": name, "choices": prefix})
+	os.WriteFile(p, b, 0o644)
+}
+
 func (e *Explorer) runOne(prefix []int, count bool) *Exec {
+	journal(e.Sc.Name, prefix)
 	body, check := e.Sc.New()
 	cfg := e.Sc.Cfg
 	if e.Execs < 2 && !cfg.Foreign {
